@@ -11,6 +11,7 @@ import Receptor.Drive.Unreach
 import Receptor.Drive.Ads
 import Receptor.Drive.Proto
 import Receptor.Drive.Work
+import Receptor.Drive.Status
 /-! Line-protocol driver: one JSON request per line `{"e":engine,"op":op,"a":args,"r":impl-observation}`,
 one JSON reply per line `{"m":model-result,"prop":true|false|null,"why":…}` or `{"bad-op":…}`. -/
 open Lean Receptor.Drive
@@ -32,6 +33,7 @@ def dispatch (e op : String) (a r : Json) : Except String Reply :=
   | "proto" => Receptor.Drive.Proto.handle op a r
   | "redact" => Receptor.Drive.Work.redactHandle op a r
   | "sig" => Receptor.Drive.Work.sigHandle op a r
+  | "status" => Receptor.Drive.Status.handle op a r
   | _ => throw s!"bad-op unknown engine {e}"
 
 def handleLine (line : String) : String :=
